@@ -62,12 +62,13 @@ const c45 = "C45"
 // ---- the recorded stream ----------------------------------------------------------------
 
 type streamItem struct {
-	Kind    string `json:"kind"` // init | block | v1send | addratelimit
-	Req     []byte `json:"req,omitempty"`
-	AppHash []byte `json:"app_hash,omitempty"` // block: hash returned by the recorder's FinalizeBlock
-	Height  int64  `json:"height,omitempty"`
-	Writes  int    `json:"writes,omitempty"` // block: size of the committed write set (health metric)
-	Txs     int    `json:"txs,omitempty"`
+	Kind     string   `json:"kind"` // init | block | v1send | addratelimit
+	Req      []byte   `json:"req,omitempty"`
+	AppHash  []byte   `json:"app_hash,omitempty"` // block: hash returned by the recorder's FinalizeBlock
+	Height   int64    `json:"height,omitempty"`
+	Writes   int      `json:"writes,omitempty"` // block: size of the committed write set (health metric)
+	Txs      int      `json:"txs,omitempty"`
+	WriteSet []string `json:"write_set,omitempty"` // block: "store/key=sha(value)" of every committed write, for diagnostics
 	// direct items
 	Port    string `json:"port,omitempty"`
 	Channel string `json:"channel,omitempty"`
@@ -103,8 +104,45 @@ func (r *recorder) ListenCommit(_ context.Context, _ abci.ResponseCommit, change
 	defer r.mu.Unlock()
 	if n := len(r.stream.Items); n > 0 && r.stream.Items[n-1].Kind == "block" {
 		r.stream.Items[n-1].Writes = len(changeSet)
+		r.stream.Items[n-1].WriteSet = writeSet(changeSet)
 	}
 	return nil
+}
+
+func writeSet(changeSet []*storetypes.StoreKVPair) []string {
+	out := make([]string, 0, len(changeSet))
+	for _, kv := range changeSet {
+		sum := sha256.Sum256(kv.Value)
+		out = append(out, fmt.Sprintf("%s/%q del=%v val=%x(%d)", kv.StoreKey, kv.Key, kv.Delete, sum[:6], len(kv.Value)))
+	}
+	return out
+}
+
+// writeSetDiff lists writes present in only one of the two (ordered) write sets.
+func writeSetDiff(rec, rep []string) string {
+	count := map[string]int{}
+	for _, w := range rec {
+		count[w]++
+	}
+	for _, w := range rep {
+		count[w]--
+	}
+	var only []string
+	for w, n := range count {
+		if n > 0 {
+			only = append(only, "recorded only: "+w)
+		} else if n < 0 {
+			only = append(only, "replay only:   "+w)
+		}
+	}
+	sort.Strings(only)
+	if len(only) > 12 {
+		only = append(only[:12], fmt.Sprintf("... (%d more)", len(only)-12))
+	}
+	if len(only) == 0 {
+		return "write sets are equal as multisets (order or earlier state differs)"
+	}
+	return strings.Join(only, "\n")
 }
 
 // insertBeforeLastBlock places a direct item in front of the block that committed it.
@@ -154,7 +192,7 @@ func recordingCreator(recs *[]*recorder) ibctesting.AppCreator {
 type replayOut struct {
 	GoMaxProcs int      `json:"gomaxprocs"`
 	Pid        int      `json:"pid"`
-	Hashes     []string `json:"hashes"`  // app hash after every block
+	Hashes     []string `json:"hashes"`   // app hash after every block
 	Mismatch   string   `json:"mismatch"` // first block whose hash differs from the recorded one
 	Export     string   `json:"export"`   // sha256 of the exported app state JSON
 	ExportJSON string   `json:"export_json,omitempty"`
@@ -172,7 +210,11 @@ func replayStream(s chainStream, keepExport bool) (out replayOut) {
 			out.Error = fmt.Sprintf("panic during replay: %v", r)
 		}
 	}()
-	app := simapp.NewSimApp(log.NewNopLogger(), dbm.NewMemDB(), nil, true, simtestutil.EmptyAppOptions{})
+	lst := &recorder{}
+	app := simapp.NewSimApp(log.NewNopLogger(), dbm.NewMemDB(), nil, true, simtestutil.EmptyAppOptions{}, func(ba *baseapp.BaseApp) {
+		ba.SetStreamingManager(storetypes.StreamingManager{ABCIListeners: []storetypes.ABCIListener{lst}, StopNodeOnErr: true})
+	})
+	app.CommitMultiStore().AddListeners(app.GetStoreKeys())
 	baseapp.SetChainID(s.ChainID)(app.GetBaseApp())
 	var next *abci.RequestFinalizeBlock
 	nextBlock := func(from int) *abci.RequestFinalizeBlock {
@@ -257,7 +299,12 @@ func replayStream(s chainStream, keepExport bool) (out replayOut) {
 			}
 			out.Hashes = append(out.Hashes, fmtHash(res.AppHash))
 			if out.Mismatch == "" && !bytes.Equal(res.AppHash, it.AppHash) {
-				out.Mismatch = fmt.Sprintf("block %d (%d txs): replay app hash %x != recorded %x", req.Height, len(req.Txs), res.AppHash, it.AppHash)
+				// the app hash returned by FinalizeBlock(h) reflects the writes of block h
+				var mine []string
+				if n := len(lst.stream.Items); n > 0 {
+					mine = lst.stream.Items[n-1].WriteSet
+				}
+				out.Mismatch = fmt.Sprintf("block %d (%d txs): replay app hash %x != recorded %x\n%s", req.Height, len(req.Txs), res.AppHash, it.AppHash, writeSetDiff(it.WriteSet, mine))
 			}
 		}
 	}
@@ -367,7 +414,11 @@ func TestReplayWorker(t *testing.T) {
 
 func runWorker(dir string, streamFile string, idx int, gomaxprocs int) ([]replayOut, error) {
 	outFile := filepath.Join(dir, fmt.Sprintf("out-%d.json", idx))
-	cmd := exec.Command(os.Args[0], "-test.run", "^TestReplayWorker$", "-test.count", "1", "-test.timeout", "600s")
+	self, err := os.Executable()
+	if err != nil {
+		return nil, err
+	}
+	cmd := exec.Command(self, "-test.run", "^TestReplayWorker$", "-test.count", "1", "-test.timeout", "600s")
 	var env []string
 	for _, e := range os.Environ() {
 		// the worker must not touch the parent's statistics / replay files
